@@ -72,13 +72,18 @@ type rt struct {
 	// pending counts writers that have called Lock() on a mutex and not yet
 	// acquired it
 	pending map[*sync.RWMutex]int
+	// fine: statement-level yield points are live in this run
+	fine bool
+	// spawning: the main task has announced workers and not yet reached its
+	// next announced operation
+	spawning bool
 }
 
 func (r *rt) NProcs(int) int { return r.nprocs }
-func (r *rt) Spawn(n int)    { r.s.Spawn(n) }
+func (r *rt) Spawn(n int)    { r.spawning = true; r.s.Spawn(n) }
 func (r *rt) Enter()         { r.s.Enter() }
 func (r *rt) Exit()          { r.s.Exit() }
-func (r *rt) Join()          { r.s.Yield("join", r.s.WorkersDone) }
+func (r *rt) Join()          { r.spawning = false; r.s.Yield("join", r.s.WorkersDone) }
 
 // BeforeRW models sync.RWMutex including its writer preference: a writer that
 // has CALLED Lock() blocks every later RLock() until it has acquired and
@@ -133,6 +138,21 @@ func (r *rt) BeforeLockAny(p interface{}, write bool) {
 	}
 }
 
+// Yield is the statement-level scheduling point inserted by tools/hookfill; it
+// is live only in fine-grained runs.
+func (r *rt) Yield() {
+	if !r.fine {
+		return
+	}
+	if r.spawning && r.s.Cur() == r.s.Main() {
+		// between the announcement of the workers and the statements that
+		// start them nobody else can run yet: a decision here would wait for
+		// goroutines that do not exist
+		return
+	}
+	r.s.Yield("stmt", nil)
+}
+
 func (r *rt) BeforeMutex(mx *sync.Mutex) {
 	r.s.Yield("mutex", func() bool {
 		if mx.TryLock() {
@@ -144,6 +164,7 @@ func (r *rt) BeforeMutex(mx *sync.Mutex) {
 }
 
 func (r *rt) BeforeSend(ch chan osm.Object) {
+	r.spawning = false
 	r.s.Yield("send", func() bool { return len(ch) < cap(ch) })
 }
 
@@ -152,6 +173,7 @@ func (r *rt) BeforeRecv(ch chan osm.Object) {
 }
 
 func (r *rt) BeforeClose(ch chan osm.Object) {
+	r.spawning = false
 	r.s.Yield("close", nil)
 	// the token holder closes the channel before its next yield
 	r.closed[ch] = true
@@ -586,7 +608,11 @@ func (r *run) exec() {
 			}
 		}
 	}
-	runtime := &rt{s: s, nprocs: r.nprocs, closed: map[chan osm.Object]bool{}, pending: map[*sync.RWMutex]int{}}
+	fine := t.OneIn(6, "fine-grained")
+	if fine {
+		r.res.Probe("fine-grained-run(statement-level yields)")
+	}
+	runtime := &rt{s: s, nprocs: r.nprocs, closed: map[chan osm.Object]bool{}, pending: map[*sync.RWMutex]int{}, fine: fine}
 	gosm.Sim = runtime
 	var data *gosm.Data
 	var err error
